@@ -356,7 +356,14 @@ func genC07(g *Gen) {
 			case 0, 1, 2:
 				ops = append(ops, c12Op{Kind: "set", Name: a.name, Idx: a.idx, Val: randScalar(r)})
 			case 3:
-				ops = append(ops, c12Op{Kind: "setchild", Name: a.name, Idx: a.idx, Val: randMap(r, tc, 1)})
+				switch r.Intn(4) {
+				case 0:
+					ops = append(ops, c12Op{Kind: "setchild-self", Name: a.name, Idx: a.idx})
+				case 1:
+					ops = append(ops, c12Op{Kind: "setchild-nil", Name: a.name, Idx: a.idx})
+				default:
+					ops = append(ops, c12Op{Kind: "setchild", Name: a.name, Idx: a.idx, Val: randMap(r, tc, 1)})
+				}
 			default:
 				ops = append(ops, c12Op{Kind: "remove", Name: a.name, Idx: a.idx})
 			}
